@@ -2,6 +2,25 @@ HOOK_COMMITS = ["d197d80"]
 NOTES = "All checks are generated-input search (proptest choice sequences, exhaustive small-domain enumeration) against explicit oracles; see DESIGN.md. Exit 2 = inconclusive (build failure / watchdog), never a violation."
 NOT_CLAIMED = {}
 CLAIMED = {
+ "C09": {
+  "technique": "exhaustive small-domain enumeration + property-based testing against a linear-scan reference",
+  "text": "Exploration: every list of <=3 (quick) / <=4 (thorough) inclusive ranges over a 7-point domain embedded order-preservingly into i64 / IPv4 (and an IPv6 analogue), written as values, a..b ranges and CIDRs, probed at every point, between points, with other-family addresses and the unset field; plus random lists of <=40 items (extremes, neighbours of earlier endpoints, /0, duplicates, mixed families, byte-string sets with shared prefixes) probed at every boundary +-1, also under any(arr[*] in {...}); oracle = linear scan of the written items with own mask arithmetic.",
+  "note": "Trusts the harness printer for literal forms; the exhaustive part is complete for the stated domain.",
+  "ref": "DESIGN.md section 3, C09",
+ },
+ "C10": {
+  "technique": "exhaustive (needle length x anchor) grid with constructed haystacks + property-based random cases, in two helper processes (AVX2 / scalar), naive window scan as oracle",
+  "text": "Exploration: needle lengths 0..=40 x every SIMD anchor (forced through the verif-hooks override) x needle kinds x ~1000 constructed haystacks per cell (offsets straddling every 16/32-byte block end, near-misses in first/last/anchor byte, prefixes/suffixes, decoys, small alphabets), random needles/haystacks up to 300 bytes, and the production path (random anchor) compiled 8 times; each in a process with AVX2 allowed and one with WIREFILTER_USE_AVX2=0; every execution compared with a naive scan.",
+  "note": "Needs the verif-hooks feature (anchor override, SIMD-active query); evidence records whether the SIMD half was really exercised (CPU with AVX2).",
+  "ref": "DESIGN.md section 3, C10",
+ },
+ "C14": {
+  "technique": "property-based round trips through five entry points + mutated documents; libFuzzer target ctx_json in the thorough tier",
+  "text": "Exploration: generated contexts (all value types nested to depth 3, forced non-UTF-8 bytes/keys, list-matcher state) are serialised, compared with the documented JSON form, and fed back through from_str / from_slice / from_reader / serde_json::Value / the C API: equal context, byte-identical re-serialisation, generated filters agree; mutated documents (type swaps, truncation, key edits, nesting changes, out-of-range numbers, deep or unknown type descriptors and malformed list sections) must be rejected or leave only deep-well-typed values, never panic.",
+  "note": "Open known finding value-tree-lists-key-order (value tree x scheme with lists) is excluded by construction and probed deterministically.",
+  "ref": "DESIGN.md section 3, C14",
+ },
+
  "C17": {
   "technique": "property-based testing with a harness-defined list matcher (query log + named sets) and model-based histories",
   "text": "Exploration: `lhs in $name` over fields, index paths, map-each paths and call results with lists registered for Int/Ip/Bytes in generated orders and kinds (harness set matcher / AlwaysList / NeverList): results equal the model lookup and the matcher's query log equals the predicted (name, value) sequence; generated valid/invalid list names x registered-or-not decide acceptance exactly; histories of mutate / clear / JSON round trip (str, slice, reader) / clone / execute against a model of the matcher state.",
